@@ -77,6 +77,10 @@ def gen_cases(tier, seed):
     for shp, dens in (([65536] * 4, 1e-18), ([100000] * 4, 1e-18), ([2 ** 21] * 3, 3e-18), ([2 ** 16, 2 ** 16, 2 ** 16, 2 ** 15], 2e-18), ([2 ** 20] * 3, 2e-17),
                       ([3, 2 ** 62], 1e-18), ([2 ** 40, 2 ** 30], 4e-21)):
         yield C(w="sprand", shape=shp, how="density", amount=dens, via="sptenrand")
+    # aggregating constructor with subscripts held in a narrow integer type, reaching the largest value of that type
+    for dt, shp in (("uint8", [256, 2]), ("int8", [2, 128]), ("uint16", [65536]), ("int16", [3, 32768]), ("uint8", [256, 256])):
+        for ws in (True, False):
+            yield C(w="aggregate_narrow", shape=shp, subs_dtype=dt, with_shape=ws, red=["sum", "max", "default"][int(rng.integers(0, 3))])
     # aggregating constructor
     for _ in range(60 if tier == "quick" else 600):
         shp = gen.rand_shape(rng, int(rng.integers(1, 4)), 1, 4)
@@ -239,6 +243,36 @@ def _w_sprand(case, ctx, rng):
     if r2.ok:
         ctx.check(tuple(r2.value.shape) == tuple(S.shape) and np.array_equal(r2.value.subs, S.subs) and same(np.asarray(r2.value.vals), np.asarray(S.vals)), via,
                   "NOT-REPRODUCIBLE", "same global seed gives another tensor")
+
+
+def _w_aggregate_narrow(case, ctx, rng):
+    shape = tuple(case["shape"])
+    dt = np.dtype(case["subs_dtype"])
+    top = [s_ - 1 for s_ in shape]
+    rows = [top, top, [int(rng.integers(0, s_)) for s_ in shape], [0] * len(shape)]
+    subs = np.array(rows).astype(dt)
+    vals = np.array([[1.5], [2.0], [3.0], [-1.0]])
+    ctx.feat(gen="from_aggregator", subs_dtype=case["subs_dtype"], with_shape=case["with_shape"], red=case["red"])
+    args = [subs.copy(), vals.copy()] + ([shape] if case["with_shape"] else ([None] if case["red"] != "default" else []))
+    if case["red"] != "default":
+        args.append(case["red"])
+    r = ctx.call("sptensor.from_aggregator", ttb.sptensor.from_aggregator, *args)
+    if not r.ok:
+        ctx.check(False, "sptensor.from_aggregator", "RAISE:" + type(r.exc).__name__, f"{type(r.exc).__name__}: {r.exc}")
+        return
+    S = r.value
+    ctx.check(tuple(int(x) for x in S.shape) == shape, "sptensor.from_aggregator", "WRONG-SHAPE", f"shape {S.shape} want {shape}")
+    got = {tuple(int(x) for x in sub): float(v) for sub, v in zip(np.asarray(S.subs).tolist(), np.asarray(S.vals).reshape(-1).tolist())}
+    want = {}
+    for row, v in zip(rows, vals[:, 0]):
+        want.setdefault(tuple(row), []).append(float(v))
+    want = {k: (max(v) if case["red"] == "max" else sum(v)) for k, v in want.items()}
+    ctx.check(got == want, "sptensor.from_aggregator", "WRONG", f"entries {got} want {want}")
+    r2 = ctx.call("sptensor.__init__", ttb.sptensor, np.unique(subs, axis=0), np.ones((len(np.unique(subs, axis=0)), 1)), *([shape] if case["with_shape"] else []))
+    if r2.ok:
+        ctx.check(tuple(int(x) for x in r2.value.shape) == shape, "sptensor.__init__", "WRONG-SHAPE", f"shape {r2.value.shape} want {shape}")
+    else:
+        ctx.check(False, "sptensor.__init__", "RAISE:" + type(r2.exc).__name__, f"{type(r2.exc).__name__}: {r2.exc}")
 
 
 def _w_aggregate(case, ctx, rng):
